@@ -164,8 +164,8 @@ static void sync_numrecs(MFile &f) {
     for (auto &r : f.ranks) { r.numrecs = f.numrecs; r.numrecs_dirty = false; }
 }
 // burst-buffer fragment: rank's log is flushed (wait / flush / sync / redef / close / a read by that rank)
-static void bb_flush(MFile &f, int rank) { if (!f.bb) return; uint8_t me = (uint8_t)(1u << rank); for (auto &v : f.vars) for (auto &c : v.cells) c.bb &= (uint8_t)~me; if (rank < (int)f.ranks.size()) f.ranks[rank].bb_pending = false; }
-static void bb_flush_all(MFile &f) { if (!f.bb) return; for (auto &v : f.vars) for (auto &c : v.cells) c.bb = c.bbx = 0; for (auto &r : f.ranks) r.bb_pending = false; }
+static void bb_flush(MFile &f, int rank) { if (!f.bb) return; uint8_t me = (uint8_t)(1u << rank); for (auto &v : f.vars) for (auto &c : v.cells) c.bb &= (uint8_t)~me; if (rank < (int)f.ranks.size()) { f.ranks[rank].bb_pending = false; for (auto &q : f.ranks[rank].reqs) if (q.live) q.bb_flushed = true; } }
+static void bb_flush_all(MFile &f) { if (!f.bb) return; for (auto &v : f.vars) for (auto &c : v.cells) c.bb = c.bbx = 0; for (auto &r : f.ranks) { r.bb_pending = false; for (auto &q : r.reqs) if (q.live) q.bb_flushed = true; } }
 static void bb_ordered(Model &m) { for (auto &f : m.files) if (f.bb) for (auto &v : f.vars) for (auto &c : v.cells) c.bbx = c.bb; }   // every rank passed a barrier: flushes made before it precede everything after it
 // a write is inside the documented fragment only if no log may still hold another write to the element and no pending nonblocking put covers it
 // 'post': a nonblocking put may reach the file at any flush between its post and its wait, so it must already be ordered (documented synchronisation)
@@ -574,7 +574,7 @@ static bool model_step_inner(Model &m, Op &op) {
             for (int r = 0; r < m.nprocs; r++) { Access &a = op.acc[r]; if (!a.active) continue; if (a.form == F_VARD) return skip(); if (a.exp_rc == NC_NOERR && bb_conflict(f, v, a.elems, r)) return skip(); }
         }
         if (is_read) { op.snap = schema_copy(f); for (int r = 0; r < m.nprocs; r++) if (op.acc[r].active && op.acc[r].exp_rc == NC_NOERR) m.pending_reads.push_back({opidx, r, op.file, vi}); }
-        if (is_read && f.bb && !op.coll) for (int r = 0; r < m.nprocs; r++) if (op.acc[r].active && op.acc[r].exp_rc == NC_NOERR && !op.acc[r].elems.empty()) bb_flush(f, r);   // an independent read of at least one element flushes the reader's own log (a zero-length one returns before reaching the driver)
+        if (is_read && f.bb && !op.coll) for (int r = 0; r < m.nprocs; r++) if (op.acc[r].active && op.acc[r].exp_rc == NC_NOERR) { if (!op.acc[r].elems.empty()) bb_flush(f, r); else for (auto &q : f.ranks[r].reqs) if (q.live) q.bb_flushed = true; /* a zero-length read may or may not reach the driver (depends on the API form): the log may or may not have been flushed */ }   // an independent read of at least one element flushes the reader's own log (a zero-length one returns before reaching the driver)
         if (!is_read) op.a[5] = v.isrec ? 1 : 0;   // (for attribution of the C08 known finding)
         if (!is_read) {
             // values: unique per (op, rank, element); detect intra-op overlap between ranks
@@ -655,7 +655,6 @@ static bool model_step_inner(Model &m, Op &op) {
         if (!f.open) return skip();
         bool cancel = op.kind == OP_CANCEL;
         if ((int)op.waits.size() != m.nprocs) return skip();
-        if (f.bb && cancel) return skip();   // burst buffer: cancelling may fail with NC_EFLUSHED after the data went to the file (documented issue 2): outside the common fragment
         if (f.bb) for (auto &w : op.waits) if (w.active && w.mode == 0) for (auto s2 : w.slots) if (s2 == -2) return skip();
         if (!cancel) { if (f.mode == FM_DEFINE || (op.coll && f.mode != FM_COLL) || (!op.coll && f.mode != FM_INDEP)) return skip(); }
         // resolve which requests complete on each rank
@@ -677,6 +676,8 @@ static bool model_step_inner(Model &m, Op &op) {
                 if (bad) { w.exp_rc = NC_EINVAL_REQUEST; done[r].clear(); w.exp_status.clear(); /* nothing named next to an invalid id is committed; per-entry statuses unspecified */ }
             } else for (int s = 0; s < (int)rk.reqs.size(); s++) if (rk.reqs[s].live && (w.mode == 1 || (w.mode == 2 && rk.reqs[s].kind == K_IGET) || (w.mode == 3 && rk.reqs[s].kind != K_IGET))) done[r].push_back(s);
         }
+        if (f.bb && cancel)   // burst buffer: cancelling a put whose log entry may already have been flushed fails with NC_EFLUSHED after the data went to the file (documented issue 2): outside the common fragment.  A put that certainly is still in the log is cancelled cleanly.
+            for (int r = 0; r < m.nprocs; r++) for (int s2 : done[r]) if (f.ranks[r].reqs[s2].kind != K_IGET && f.ranks[r].reqs[s2].bb_flushed) return skip();
         std::map<std::pair<int, long long>, int> touched;   // (var, elem) written by a put completing in this op
         if (!cancel) {
             for (int r = 0; r < m.nprocs; r++) for (int s : done[r]) {
@@ -708,7 +709,7 @@ static bool model_step_inner(Model &m, Op &op) {
             }
         }
         for (int r = 0; r < m.nprocs; r++) {
-            for (int s : done[r]) { MReq &q = f.ranks[r].reqs[s]; if (q.kind == K_BPUT) { f.ranks[r].abuf_used -= q.abuf_bytes; for (auto &e : f.ranks[r].abuf_table) if (e.second == s) e.second = -1; } q.live = false; }
+            for (int s : done[r]) { MReq &q = f.ranks[r].reqs[s]; if (f.bb && cancel && q.kind != K_IGET) { MVar &cv = f.vars[q.var]; if (cv.isrec && q.maxrec > 0) op.note = "bb-cancel-staged-records"; for (auto e : q.acc.elems) if (e >= 0 && e < (long long)cv.cells.size() && cv.cells[(size_t)e].bbpend) cv.cells[(size_t)e].bbpend--; } if (q.kind == K_BPUT) { f.ranks[r].abuf_used -= q.abuf_bytes; for (auto &e : f.ranks[r].abuf_table) if (e.second == s) e.second = -1; } q.live = false; }
             auto &t = f.ranks[r].abuf_table; while (!t.empty() && t.back().second < 0) t.pop_back();
         }
         req_counts(f, op);
